@@ -796,6 +796,9 @@ def iS : Nat → Stmt → List Item
   | ind, .set lv v => iIndent ind ++ ([kwI "set", .sp] ++ (iE lv ++ ([.sp, .tk (.p .eq), .sp] ++ (iE v ++ [.tk .nl]))))
   | ind, .call f as => iIndent ind ++ (.tk (.id f) :: ((if as.isEmpty then [] else .sp :: iArgs as) ++ [.tk .nl]))
   | ind, .exit => iIndent ind ++ [kwI "exit", .tk .nl]
+  | ind, .put m v lv => iIndent ind ++ ([kwI "put", .sp] ++ (iE v ++ ([.sp, kwI m.tag, .sp] ++ (iE lv ++ [.tk .nl]))))
+  | ind, .delete t => iIndent ind ++ ([kwI "delete", .sp] ++ (iE t ++ [.tk .nl]))
+  | ind, .hilite t => iIndent ind ++ ([kwI "hilite", .sp] ++ (iE t ++ [.tk .nl]))
   | ind, .ifThen c t e =>
     iIndent ind ++ ([kwI "if", .sp] ++ (iE c ++ ([.sp, kwI "then", .tk .nl] ++ (iSs (ind + 1) t ++
       ((if e.isEmpty then [] else iIndent ind ++ ([kwI "else", .tk .nl] ++ iSs (ind + 1) e)) ++
@@ -827,6 +830,18 @@ theorem render_iS (ind : Nat) (s : Stmt) (hf : FragS s = true) : render (iS ind 
     cases hemp : as.isEmpty <;>
       simp [iS, hemp, render_append, render_cons, render_indent, render_iArgs as hf.2, mS, Item.text, S, render_nil]
   | exit => simp [iS, render_append, render_cons, render_indent, mS, Item.text, kwI, S, render_nil]
+  | put m v lv =>
+    simp only [FragS, Bool.and_eq_true] at hf
+    simp only [iS, render_append, render_indent, render_iE lv (fragTg_fragE lv 0 hf.1.2), render_iE v hf.1.1, mS]
+    simp [render, Item.text, kwI, S]
+  | delete t =>
+    simp only [FragS, Bool.and_eq_true] at hf
+    simp only [iS, render_append, render_indent, render_iE t (fragTg_fragE t 0 hf.2), mS]
+    simp [render, Item.text, kwI, S]
+  | hilite t =>
+    simp only [FragS] at hf
+    simp only [iS, render_append, render_indent, render_iE t (fragTg_fragE t 0 hf), mS]
+    simp [render, Item.text, kwI, S]
   | _ => simp [FragS] at hf
 
 theorem plainCall_pr (f : Spec.Name) (as : List Expr) (h : plainCallName f = true) : prCallStmt f as = .id f :: prArgs as := by
@@ -850,6 +865,15 @@ theorem itoks_iS (ind : Nat) (s : Stmt) (hf : FragS s = true) : itoks (iS ind s)
     | false =>
       simp [iS, hemp, itoks_append, itoks_indent, itoks, itoks_iArgs as hf.2, prS, plainCall_pr f as hf.1.1.2]
   | exit => simp [iS, itoks_append, itoks_indent, itoks, prS, kwI, kw]
+  | put m v lv =>
+    simp only [FragS, Bool.and_eq_true] at hf
+    simp [iS, itoks_append, itoks_indent, itoks_iE lv (fragTg_fragE lv 0 hf.1.2), itoks_iE v hf.1.1, prS, itoks, kwI, kw]
+  | delete t =>
+    simp only [FragS, Bool.and_eq_true] at hf
+    simp [iS, itoks_append, itoks_indent, itoks_iE t (fragTg_fragE t 0 hf.2), prS, itoks, kwI, kw]
+  | hilite t =>
+    simp only [FragS] at hf
+    simp [iS, itoks_append, itoks_indent, itoks_iE t (fragTg_fragE t 0 hf), prS, itoks, kwI, kw]
   | _ => simp [FragS] at hf
 
 /-- an expression followed by an item list whose text starts with a blank / newline -/
@@ -900,6 +924,23 @@ theorem chain_iS (ind : Nat) (s : Stmt) (hf : FragS s = true) (l : List Item) (r
   | exit =>
     simp only [iS, List.append_assoc, List.cons_append, List.nil_append, chain_indent]
     exact chain_cons_nl _ _ _ (by decide)
+  | put m v lv =>
+    simp only [FragS, Bool.and_eq_true] at hf
+    simp only [iS, List.append_assoc, List.cons_append, List.nil_append, chain_indent]
+    have hv := chain_iE lv (fragTg_fragE lv 0 hf.1.2) (render (.tk .nl :: l) ++ rest) ⟨'\n', _, rfl, safe_nl⟩
+    have hm : ItemOk (kwI m.tag) = true := by cases m <;> decide
+    rw [chain_cons_sp _ _ _ (by decide), chain_iE_then v hf.1.1 ' ' safe_sp _ _ (render_sp_head _), chain_sp,
+      chain_cons_sp _ _ _ hm, chain_append, hv, Bool.true_and, chain_nl]
+  | delete t =>
+    simp only [FragS, Bool.and_eq_true] at hf
+    simp only [iS, List.append_assoc, List.cons_append, List.nil_append, chain_indent]
+    have hv := chain_iE t (fragTg_fragE t 0 hf.2) (render (.tk .nl :: l) ++ rest) ⟨'\n', _, rfl, safe_nl⟩
+    rw [chain_cons_sp _ _ _ (by decide), chain_append, hv, Bool.true_and, chain_nl]
+  | hilite t =>
+    simp only [FragS] at hf
+    simp only [iS, List.append_assoc, List.cons_append, List.nil_append, chain_indent]
+    have hv := chain_iE t (fragTg_fragE t 0 hf) (render (.tk .nl :: l) ++ rest) ⟨'\n', _, rfl, safe_nl⟩
+    rw [chain_cons_sp _ _ _ (by decide), chain_append, hv, Bool.true_and, chain_nl]
   | _ => simp [FragS] at hf
 
 theorem render_iSs (ind : Nat) : ∀ (ss : List Stmt), FragSs ss = true → render (iSs ind ss) = mSs ind ss
@@ -1010,9 +1051,9 @@ theorem render_iX : ∀ (s : Stmt), FragX s = true → ∀ (ind : Nat), render (
             Item.text, kwI, S, render_nil, P.text]
       | _ => simp [FragX] at hf
     | _ => simp [FragX] at hf
-  | .put .., hf, _ => by simp [FragX] at hf
-  | .delete _, hf, _ => by simp [FragX] at hf
-  | .hilite _, hf, _ => by simp [FragX] at hf
+  | .put m v lv, hf, ind => render_iS ind _ (by simpa only [FragX] using hf)
+  | .delete t, hf, ind => render_iS ind _ (by simpa only [FragX] using hf)
+  | .hilite t, hf, ind => render_iS ind _ (by simpa only [FragX] using hf)
   | .mcall .., hf, _ => by simp [FragX] at hf
   | .tell .., hf, _ => by simp [FragX] at hf
   | .repeatIn .., hf, _ => by simp [FragX] at hf
@@ -1049,9 +1090,9 @@ theorem itoks_iX : ∀ (s : Stmt), FragX s = true → ∀ (ind : Nat), itoks (iS
           simp [iS, iE, prSW, prE, itoks_append, itoks_indent, itoks, itoks_iE a ha, itoks_iE b hb, itoks_iXs body hbody (ind + 1), kwI, kw]
       | _ => simp [FragX] at hf
     | _ => simp [FragX] at hf
-  | .put .., hf, _ => by simp [FragX] at hf
-  | .delete _, hf, _ => by simp [FragX] at hf
-  | .hilite _, hf, _ => by simp [FragX] at hf
+  | .put m v lv, hf, ind => by rw [itoks_iS ind _ (by simpa only [FragX] using hf)]; simp [prS, prSW]
+  | .delete t, hf, ind => by rw [itoks_iS ind _ (by simpa only [FragX] using hf)]; simp [prS, prSW]
+  | .hilite t, hf, ind => by rw [itoks_iS ind _ (by simpa only [FragX] using hf)]; simp [prS, prSW]
   | .mcall .., hf, _ => by simp [FragX] at hf
   | .tell .., hf, _ => by simp [FragX] at hf
   | .repeatIn .., hf, _ => by simp [FragX] at hf
@@ -1113,9 +1154,9 @@ theorem chain_iX : ∀ (s : Stmt), FragX s = true → ∀ (ind : Nat) (l : List 
             chain_cons_sp _ _ _ (by decide), chain_cons_sp _ _ _ (by decide), hend]
       | _ => simp [FragX] at hf
     | _ => simp [FragX] at hf
-  | .put .., hf, _, _, _ => by simp [FragX] at hf
-  | .delete _, hf, _, _, _ => by simp [FragX] at hf
-  | .hilite _, hf, _, _, _ => by simp [FragX] at hf
+  | .put m v lv, hf, ind, l, rest => chain_iS ind _ (by simpa only [FragX] using hf) l rest
+  | .delete t, hf, ind, l, rest => chain_iS ind _ (by simpa only [FragX] using hf) l rest
+  | .hilite t, hf, ind, l, rest => chain_iS ind _ (by simpa only [FragX] using hf) l rest
   | .mcall .., hf, _, _, _ => by simp [FragX] at hf
   | .tell .., hf, _, _, _ => by simp [FragX] at hf
   | .repeatIn .., hf, _, _, _ => by simp [FragX] at hf
